@@ -255,6 +255,47 @@ def history_layer(ctx, stride=1):
     return 2 * len(seq)
 
 
+def null_argument_layer(ctx):
+    """`null` is a value of every type: as an argument of the functions whose return type is derived from their arguments
+    (concat, substring) it must not become the inferred type, and a call that contains it must not be rejected by a type check."""
+    s, a = typed.F("s"), T.Str("a")
+    L = T.lst(T.Int(1), T.Int(2))
+    cases = [(T.call("concat", T.NULL, a), "String"), (T.call("concat", a, T.NULL), "String"), (T.call("concat", T.NULL, s), None),
+             (T.call("concat", s, T.NULL), None), (T.call("concat", T.NULL, T.NULL), None), (T.call("concat", T.NULL, L), "List"),
+             (T.call("concat", T.call("concat", T.NULL, a), T.NULL), "String"), (T.call("substring", T.NULL, T.Int(1)), None),
+             (T.call("substring", T.call("concat", T.NULL, a), T.Int(1)), "String"), (T.call("tolower", T.NULL), "String"),
+             (T.call("length", T.NULL), "Integer"), (T.call("concat", T.call("tolower", T.NULL), T.NULL), "String")]
+    bks = backends()
+    for term, exp in cases:
+        text = to_odata(term)
+        node = _ps.parse(_lx.tokenize(text))
+        ctx.count("states")
+        ctx.count("executions")
+        inferred = otyping.infer_type(node)
+        name = inferred.__name__ if inferred else None
+        if name not in (None, exp):
+            ctx.violation("wrong-type:%s:null-argument:%s->%s" % (_head(term), exp, name), {"text": text, "type": exp, "expected": [None, exp], "observed": name, "check": "infer"})
+        else:
+            ctx.outcome(("null-arg", name))
+        if exp in ("String", None) and term[1][1] in ("concat", "substring", "tolower"):
+            for fn in ("contains", "startswith", "endswith"):
+                for pos in (0, 1):
+                    args = [s, a]
+                    args[pos] = term
+                    t2 = to_odata(T.call(fn, *args))
+                    n2 = _ps.parse(_lx.tokenize(t2))
+                    for bname, mk in bks.items():
+                        ctx.count("executions")
+                        try:
+                            mk().visit(n2)
+                            ctx.outcome(("tc-ok", bname))
+                        except exceptions.ArgumentTypeException as e:
+                            ctx.violation("typecheck-rejects-well-typed:%s:null-argument" % bname, {"text": t2, "backend": bname, "error": str(e), "check": "typecheck"})
+                        except Exception as e:  # noqa
+                            ctx.outcome(("tc-other", bname, type(e).__name__))
+    return len(cases)
+
+
 def run(ctx):
     en = enum()
     kmax = 3
@@ -274,6 +315,8 @@ def run(ctx):
     ctx.layer("history-forward-reverse", terms=nh, exhaustive=True)
     typecheck_layer(ctx)
     ctx.layer("typecheck", functions=3, positions=2, literal_kinds=len(LITERALS), backends=4, exhaustive=True)
+    nn = null_argument_layer(ctx)
+    ctx.layer("null-arguments", calls=nn, exhaustive=True)
 
 
 def replay(ctx, case):
